@@ -988,7 +988,8 @@ mod test {
     #[test]
     fn head_strict() {
         let h = parse_request_head_strict(b"GET / HTTP/1.1\r\nhost: a\r\n\r\n").unwrap();
-        assert_eq!(h.units, vec![16, 27]);
+        // request line, the one header line, the empty line: each a line of its own
+        assert_eq!(h.units, vec![16, 25, 27]);
         assert!(parse_request_head_strict(b"GET / HTTP/1.1\r\nhost: a\r\n").is_err());
         assert!(parse_request_head_strict(b"GET / HTTP/1.1\r\nhost: a\r\n\r\nx").is_err());
     }
